@@ -35,11 +35,22 @@ pub fn plan_for(prop: &str, tier: Tier, seed: u64) -> Option<Plan> {
 			],
 			exhaustive: false,
 		},
+		"C02" => Plan {
+			property: "C02".into(),
+			tier,
+			seed,
+			jobs: vec![job("lnsim", "forward", n(600, 20000))],
+			level: "exploration".into(),
+			rule: "TODO".into(),
+			assumptions: t_assumptions.clone(),
+			probes: vec![],
+			exhaustive: false,
+		},
 		"C03" => Plan {
 			property: "C03".into(),
 			tier,
 			seed,
-			jobs: vec![job("lnsim", "offchain", n(1500, 20000))],
+			jobs: vec![job("lnsim", "forward", n(600, 20000))],
 			level: "exploration".into(),
 			rule: "TODO".into(),
 			assumptions: t_assumptions.clone(),
